@@ -350,7 +350,7 @@ fn nmd_variants() -> Vec<(Vec<VertexElement>, [u8; 3])> {
     ]
 }
 
-//@unit props=C07,C06 label=B tier=quick native=1 fn=model::MDL::{write_to_buffer,from_existing,update_headers} bound="by execution: resources/tests/c0201e0038_top_zeroed.mdl with the declaration of one mesh (mesh 1 of LOD 0, mesh 5 of LOD 2) rewritten to each of 4 layouts (every (usage, type) pair the writer supports, interleaved element order, two streams) and its vertices replaced by canonical pseudo-random values; the unmodified model; and an edit history (remove_shape_meshes, then replace_vertices on both meshes of LOD 0 / LOD 2 with fewer vertices and indices and re-split sub-meshes, and once with 70002 indices in the first mesh so that the second mesh starts beyond index 65535)"
+//@unit props=C07,C06 label=B tier=quick native=1 fn=model::MDL::{write_to_buffer,from_existing,update_headers} bound="by execution: resources/tests/c0201e0038_top_zeroed.mdl with the declaration of one mesh (mesh 1 of LOD 0, mesh 5 of LOD 2) rewritten to each of 4 layouts (every (usage, type) pair the writer supports, interleaved element order, two streams) and its vertices replaced by canonical pseudo-random values; the unmodified model; and an edit history (remove_shape_meshes, then replace_vertices on both meshes of LOD 0 / LOD 2 with fewer vertices and indices and re-split sub-meshes, and once with 70002 indices in the first mesh so that the second mesh starts beyond index 65535; and a history where the first mesh grows and the second is re-supplied with unchanged counts but moved sub-mesh ranges)"
 //@desc a model written by the library parses back to the same geometry: every vertex attribute of every part (the rewritten part and the untouched ones), every index, the declarations, mesh records and file header; i.e. the writer stores each attribute at LOD vertex offset + stream offset + element offset + stride*k in its own encoding and the reader finds it there
 #[test]
 fn native_mdl_write_parse_identity() {
@@ -423,6 +423,33 @@ fn native_mdl_write_parse_identity() {
         for ol in 0..3usize { if ol != l { for (p, part) in back.lods[ol].parts.iter().enumerate() {
             assert!(part.vertices == original.lods[ol].parts[p].vertices && part.indices == original.lods[ol].parts[p].indices, "LOD {ol} part {p} is untouched by the edit of LOD {l}");
         } } }
+        cases += 1;
+    }
+    // a second edit history: the first mesh of LOD 0 grows by 12 indices, then the second mesh is re-supplied with the SAME counts but with its
+    // sub-mesh ranges moved behind the grown first mesh
+    {
+        let mut mdl = MDL::from_existing(&bytes).unwrap();
+        mdl.remove_shape_meshes();
+        let l = 0usize;
+        let j0 = mdl.lods[l].parts[0].mesh_index as usize; let j1 = mdl.lods[l].parts[1].mesh_index as usize;
+        let (nv0, ni0) = (mdl.lods[l].parts[0].vertices.len(), mdl.lods[l].parts[0].indices.len() + 12);
+        let (nv1, ni1) = (mdl.lods[l].parts[1].vertices.len(), mdl.lods[l].parts[1].indices.len());
+        let e0 = mdl.model_data.header.vertex_declarations[j0].elements.clone(); let e1 = mdl.model_data.header.vertex_declarations[j1].elements.clone();
+        let v0: Vec<Vertex> = (0..nv0).map(|k| nmd_vertex(&e0, k, 9100)).collect(); let v1: Vec<Vertex> = (0..nv1).map(|k| nmd_vertex(&e1, k, 9200)).collect();
+        let i0: Vec<u16> = (0..ni0).map(|k| ((k * 5 + 1) % nv0) as u16).collect(); let i1: Vec<u16> = (0..ni1).map(|k| ((k * 3 + 2) % nv1) as u16).collect();
+        let split = |subs: &mut Vec<SubMesh>, start: u32, ni: usize| -> Vec<(u32, u32)> { let n = subs.len(); let mut at = start; let mut r = vec![]; for (si, sm) in subs.iter_mut().enumerate() { let c = if si + 1 == n { start + ni as u32 - at } else { (ni / n / 3 * 3) as u32 }; sm.index_offset = at; sm.index_count = c; r.push((at, c)); at += c; } r };
+        let mut s0 = mdl.lods[l].parts[0].submeshes.clone(); let r0 = split(&mut s0, 0, ni0);
+        mdl.replace_vertices(l, 0, &v0, &i0, &s0);
+        let mut s1 = mdl.lods[l].parts[1].submeshes.clone(); let r1 = split(&mut s1, ni0 as u32, ni1);
+        mdl.replace_vertices(l, 1, &v1, &i1, &s1);
+        let back = MDL::from_existing(&mdl.write_to_buffer().expect("write")).expect("an edited model parses");
+        for (p, (v, i, r)) in [(0usize, (&v0, &i0, &r0)), (1, (&v1, &i1, &r1))] {
+            let part = &back.lods[l].parts[p];
+            assert!(part.vertices == **v, "count-preserving edit: vertices of part {p}");
+            assert!(part.indices == **i, "count-preserving edit: parsing returns exactly the new indices of part {p} (first difference at {:?})", part.indices.iter().zip(i.iter()).position(|(a, b)| a != b));
+            assert_eq!(part.submeshes.iter().map(|s| (s.index_offset, s.index_count)).collect::<Vec<_>>(), **r, "count-preserving edit: sub-mesh ranges of part {p}");
+        }
+        assert_eq!(back.model_data.meshes[j1].start_index, ni0 as u32, "the second mesh starts right behind the grown first mesh");
         cases += 1;
     }
     println!("NATIVE native_mdl_write_parse_identity cases={cases}");
